@@ -303,7 +303,72 @@ def artim_next_to_other_association(dt: int, b_first: bool) -> bool:
     return ok
 
 
+SILENT_AT = ['no_reply_to_request', 'no_reply_to_echo', 'no_reply_to_release']
+
+
+@cond(bounds='a request to stop always completes, public API over a REAL provider facing a scripted peer: a requested '
+             'association whose peer goes silent without closing at a point where PS3.8 arms no ARTIM timer - it never '
+             'answers the A-ASSOCIATE-RQ (Sta5), it accepts and never answers the C-ECHO-RQ (Sta6), it answers and never '
+             'confirms the A-RELEASE-RQ (Sta7) (one instance each); the body of the with-block ends normally or raises '
+             '(symbolic), the local time-out and the clock advance are symbolic: the context manager is left with the '
+             'time-out (or the body\'s) error, Association.kill() has returned (bounded polling, termination flag '
+             'honoured by the loop), nothing blocks', family={'silent': SILENT_AT}, timeout=240)
+def stop_completes_with_silent_peer(body_raises: bool, timeout_s: int, dt: int) -> bool:
+    """
+    pre: 1 <= timeout_s <= 60 and 0 <= dt <= 60
+    post: _
+    """
+    from vt import sim
+    from vt.harness import live as L
+    from vt.harness.c14 import _client_ae, _ac_for, _echo_rsp_wire, VERIF_SOP
+    from pynetdicom2 import exceptions
+    silent = fam('silent')
+    clock = sim.SimClock(1000)
+    with sim._no_tracing():
+        L.install(clock)
+        ae = _client_ae()
+    ae.timeout = timeout_s
+
+    def react(new):
+        out = []
+        for raw in new:
+            if raw[0] == 1 and silent != 'no_reply_to_request':
+                out.append(_ac_for(raw))
+            elif raw[0] == 4 and silent == 'no_reply_to_release':
+                out.append(_echo_rsp_wire(1))
+        return out
+    L.LiveDulModule.queue.append((L.StepSocket(), L.PeerBot(react)))
+    outcome = None
+    try:
+        with ae.request_association({'aet': 'REMOTE', 'address': 'h', 'port': 104}) as asce:
+            clock.now = clock.now + dt
+            if silent != 'no_reply_to_request':
+                asce.get_scu(VERIF_SOP)(1)
+            if body_raises:
+                raise ValueError('body')
+        outcome = 'left normally'
+    except exceptions.DCMTimeoutError:
+        outcome = 'timeout'
+    except ValueError:
+        outcome = 'body error'
+    except api.Hang as h:
+        outcome = 'hang: %s' % (h,)
+    except exceptions.NetDICOMError as e:
+        outcome = 'other: %s' % type(e).__name__
+    prov = L.LiveDulModule.created[-1]
+    expected = {'no_reply_to_request': ('timeout',), 'no_reply_to_echo': ('timeout',),
+                'no_reply_to_release': ('body error',) if body_raises else ('timeout',)}[silent]
+    ok = outcome in expected and prov._vt_killed and prov._vt_pump.err is None and not prov._vt_pump.over_budget
+    deep(ok and body_raises and dt == 11)
+    stop_completes_with_silent_peer.last = (outcome, prov._vt_killed, prov._vt_pump.err, prov._vt_stop_calls, prov._vt_pump.state())
+    return ok
+
+
 def explain(cname, args, famv):
+    if cname == 'stop_completes_with_silent_peer':
+        stop_completes_with_silent_peer(**args)
+        return 'peer silent: %s; outcome=%r kill() returned=%r loop error=%r stop() polled %d times, provider state Sta%d' % (
+            (famv['silent'],) + stop_completes_with_silent_peer.last)
     if cname == 'artim_next_to_other_association':
         return 'association A in %s, clock advanced by %d s after association B was %s: A must be idle and closed iff ' \
                'more than 10 s have passed' % (famv['a_state'], args['dt'], 'served before A connected' if args['b_first']
